@@ -75,6 +75,12 @@ pub fn run(op: &str, args: &[&str]) -> Option<String> {
 /// C04: valid programs under varied layouts: PARSE (impl vs model) + SPECPARSE (impl vs grammar spec).
 pub fn gen_c04(rng: &mut Rng, n: usize, out: &mut Vec<String>) {
     for i in 0..n {
+        if i % 20 == 5 {
+            // one quantity just beyond a round number
+            let h = hex_str(&crate::ops_sem::scale_doc(rng, i / 20));
+            out.push(format!("PARSE {}", h));
+            out.push(format!("SPECPARSE {}", h));
+        }
         let prog = gen_prog::gen(rng, 3, 4, if i % 5 == 0 { 5 } else { 3 });
         // the same token sequence under two layouts, one of them with comments in any gap
         for k in 0..2 {
@@ -105,10 +111,13 @@ pub fn gen_c05(rng: &mut Rng, n: usize, out: &mut Vec<String>) {
         for (i, t) in prog.toks.iter().enumerate() {
             let first_of_next = doc_next && t.decl == k + 1 && (i == 0 || prog.toks[i - 1].decl == k);
             if with_comments && gen_prog::LEADING_GAPS.contains(&t.gap) && (rng.chance(1, 4) || first_of_next) {
-                let mut c = t.clone();
-                c.text = format!("// c{}\n", i);
-                c.gap = "comment";
-                base.push(c);
+                // one to three comment lines (every `//` line is a token of its own)
+                for l in 0..(1 + rng.below(3)) {
+                    let mut c = t.clone();
+                    c.text = format!("// c{}.{}\n", i, l);
+                    c.gap = "comment";
+                    base.push(c);
+                }
             }
             base.push(t.clone());
         }
